@@ -129,10 +129,12 @@ pub mod cmp {
     pub fn max(a: Duration, b: Duration) -> (r: Duration)
         ensures r == (if b.ns@ >= a.ns@ { b } else { a }),
     { unimplemented!() }
+    #[verifier::external_body]
+    pub fn min(a: Duration, b: Duration) -> (r: Duration)
+        ensures r == (if b.ns@ < a.ns@ { b } else { a }),
+    { unimplemented!() }
 }
-//@item! stun_agent :: mod rtt > const K
-//@item! stun_agent :: mod rtt > const ALPHA
-//@item! stun_agent :: mod rtt > const BETA
+//@consts stun_agent :: mod rtt
 //@item! stun_agent :: mod rtt > struct RttCalcuator
 impl Clone for RttCalcuator { fn clone(&self) -> (r: Self) ensures r == *self { *self } }
 impl Copy for RttCalcuator {}
